@@ -27,6 +27,30 @@ def setup():
     return 1 if missing else 0
 
 
+# Helper code in OTHER modules that a property's model takes as given (by its regenerated twin): the functions the anchored code
+# calls.  For each, the generated file must compile (its lemmas say "generated from the current source == the model").
+DEPS = {
+    "C01": ["util", "fourier", "conv", "wavelet", "interpw"], "C02": ["util", "fourier", "conv", "wavelet", "interpw"],
+    "C03": ["util", "fourier", "conv", "wavelet", "interpw"], "C04": ["util", "fourier", "conv", "wavelet", "interpw"],
+    "C05": ["util"], "C06": ["util", "interp", "interpw"], "C10": ["util"], "C11": ["util"],
+    "C14": ["alg", "prox", "linop_table", "linop_apply"], "C15": ["lls"],
+    "C16": ["alg", "lls", "prox", "linop_table", "linop_apply", "fourier", "wavelet"],
+    "C17": ["alg", "util", "block", "fourier"],
+}
+
+
+def dependency_ties(ctx, pid, translate_all):
+    broken = []
+    for job in DEPS.get(pid, []):
+        fname = translate_all.JOBS[job][0]
+        err = translate_all.run(strict=False, only=[job])
+        ok = (not err) and ctx.make(["gen/" + fname + "o"])
+        ctx.obligation("dep-tie:%s (gen/%s: generated from the current source == model)" % (job, fname), bool(ok))
+        if not ok:
+            broken.append("dep-tie:%s (gen/%s)%s" % (job, fname, ": " + str(err)[:200] if err else ""))
+    return broken
+
+
 def main():
     ap = argparse.ArgumentParser()
     ap.add_argument("pid", nargs="?")
@@ -57,7 +81,13 @@ def main():
         # then records the obligation for the files its theorems depend on
         from tools import translate_all
         translate_all.run(strict=False)
+        dep_broken = dependency_ties(ctx, a.pid, translate_all)
         mod.run(ctx)
+        if dep_broken and not ctx.violations:
+            ctx.violation("a model this property's theorems rely on no longer matches the source it is regenerated from: %s" % ", ".join(dep_broken),
+                          {"kind": "proof", "broken": {"theorem": "; ".join(dep_broken),
+                                                      "note": "helper code in another module (see DEPS in vlib/main.py) changed; the property's own inputs showed no failure"}},
+                          found_input=False, signature="%s:dependency-tie" % a.pid)
     except Exception as e:   # machinery failure is reported as a violation without input (fail closed)
         tb = traceback.format_exc()
         print(tb, file=sys.stderr)
